@@ -568,6 +568,16 @@ theorem degraded_other_table_not_atomic :
       OldDegraded R old ∧ NewOk R new ∧ Crash false old new d ∧ read R d = .err :=
   GptCrash.degraded_other_table_not_atomic
 
+/-- …and worse than an error (same finding): while the primary array is in flight the STALE primary header — of the
+    table that was on the disk before the interrupted write — can become valid again, when the sectors of the new array
+    that have reached the disk equal that table's, and the disk reads from the primary as that third table: neither the
+    old table (from the backup) nor the new one.  No CRC collision is involved: the arrays are equal. -/
+theorem degraded_other_table_resurrects_stale_primary :
+    ∃ (R : Reader Nat Nat 2) (old new d : Disk Nat 2) (pa : Nat),
+      OldDegraded R old ∧ NewOk R new ∧ Crash false old new d ∧ read R d = .ok pa false ∧
+      pa ≠ R.parts old.ba ∧ pa ≠ R.parts new.pa :=
+  GptCrash.degraded_other_table_resurrects_stale_primary
+
 /-- for the record (NOT what the code does): the order primary array → primary header → backup array → backup
     header is atomic over a disk that reads only from its backup, for any new table -/
 theorem primary_first_atomic_over_degraded {S P : Type} {n : Nat} (R : Reader S P n) (old new : Disk S n)
